@@ -204,6 +204,11 @@ class Renderer:
     def stmt(self, s, d):
         if isinstance(s, Emit):
             if s.expr is None: self.emit(d, f'{self.kw("STRING")} {s.tag}', s)
+            elif self.rnd is not None and self.rnd.random() < 0.15:
+                # the grouped spelling: the expression on an indented line under the command (the same line object is evaluated
+                # again at every execution of the line — in a loop, in a function run twice)
+                self.emit(d, self.kw("$STRING"), s)
+                self.emit(d + 1, f'"{s.tag}="+({self.r(s.expr)})')
             else: self.emit(d, f'{self.kw("$STRING")} "{s.tag}="+({self.r(s.expr)})', s)
         elif isinstance(s, Assign): self.emit(d, f'{self.kw("VAR")} {s.name} {self.r(s.expr)}', s)
         elif isinstance(s, IfChain):
